@@ -129,7 +129,14 @@ async fn run_async(run: usize, shards: usize, gen: &mut Gen, len: usize, two_key
         let (c, argv) = loop {
             if !want_two && (gen.rng.gen_range(0..8) == 0 || (scripts && gen.rng.gen_bool(0.6))) {
                 // script-cache commands (one cache per server) and the modelled extras
-                break if gen.rng.gen_bool(0.7) { gen.script_command() } else { gen.extra_command() };
+                let (mut c, mut argv) = if gen.rng.gen_bool(0.7) { gen.script_command() } else { gen.extra_command() };
+                // SORT ... STORE names two keys: on several shards that is the listed finding two_key_commands_single_shard,
+                // which has its own runs (--twokey); here SORT goes without STORE
+                if c["op"] == "SORT" && c["store"].as_str().map(|d| !d.is_empty()).unwrap_or(false) {
+                    c["store"] = json!("");
+                    argv.truncate(2);
+                }
+                break (c, argv);
             }
             let (c, argv) = gen.command();
             let op = c["op"].as_str().unwrap_or("").to_string();
